@@ -35,11 +35,11 @@ pub fn spec_for(era: EraK) -> impl Strategy<Value = Spec> {
         prop::collection::vec(0u8..6, 0..2),
         prop::option::weighted(0.4, plutus_s()),
         any::<bool>(),
-        (0u32..50_000, prop_oneof![3 => Just(0u8), 4 => 1u8..7], prop_oneof![3 => Just(0u8), 2 => 1u8..3]),
+        (0u32..50_000, prop_oneof![3 => Just(0u8), 4 => 1u8..7], prop_oneof![3 => Just(0u8), 2 => 1u8..3], prop::option::weighted(0.3, prop_oneof![Just(1u32), 1u32..5_000_000])),
     )
-        .prop_map(move |(inputs, outputs, mint, metadata, ttl_slack, validity_back, body_network_id, req_signers, plutus, legacy_outputs, (extra_fee, aux_form, ref_inputs))| Spec {
+        .prop_map(move |(inputs, outputs, mint, metadata, ttl_slack, validity_back, body_network_id, req_signers, plutus, legacy_outputs, (extra_fee, aux_form, ref_inputs, donation))| Spec {
             era, inputs, outputs, mint, metadata, ttl_slack, validity_back, body_network_id, req_signers, plutus, legacy_outputs, extra_fee, certs: vec![],
-            aux_form, early_multiasset: false, ref_inputs,
+            aux_form, early_multiasset: false, ref_inputs, donation,
         })
 }
 
@@ -52,6 +52,8 @@ pub fn spec() -> impl Strategy<Value = Spec> {
 pub fn spec_early() -> impl Strategy<Value = Spec> {
     (spec(), prop::bool::weighted(0.35)).prop_map(|(mut s, e)| {
         s.early_multiasset = e && s.era < EraK::Mary;
+        // the conservation statement (C34) is about transactions without a donation
+        s.donation = None;
         s
     })
 }
